@@ -21,7 +21,11 @@ package http2
 // with AdjustStream / CloseStream. VerifC13_parse: parseRFC9218Priority on a symbolic field value always yields a priority the
 // scheduler can index with (u <= 7, i <= 1), and the scheduler accepts it.
 //
-// Sensitivity (sh mut.sh ... C13): see the end of this file.
+// Sensitivity, confirmed with sh mut.sh (quick tier), writesched_priority_rfc9218.go:
+//   Pop, non-incremental branch: `ws.heads[u][i] = q` -> `= q.next` (no stickiness)   -> VerifC13_fair: (2a) violated
+//   Pop, incremental branch: `ws.heads[u][i] = q.next` -> `= q` (no round robin)       -> VerifC13_fair: (2b) violated
+//   OpenStream: `if streamID == ws.priorityUpdateBuf.streamID` -> `if false` (buffered update ignored)
+//                                                                                       -> VerifC13_history: violated
 
 func init() {
 	vfRegister("VerifC13_history", VerifC13_history)
